@@ -356,6 +356,40 @@ func Tail(c *core.Ctx, rule string, pkgs []*packages.Package) {
 				}
 				n++
 				name := c.FuncName(p, fd)
+				// forcing the recursive result (self(...).Get(), lazy.Run(self(...))) starts a nested trampoline per level
+				var forced ast.Node
+				isSelf := func(e ast.Node) bool {
+					return nodeContains(e, true, func(y ast.Node) bool {
+						id, ok := y.(*ast.Ident)
+						if !ok {
+							return false
+						}
+						o, ok := info.Uses[id].(*types.Func)
+						return ok && o.Origin() == fn
+					})
+				}
+				ast.Inspect(fd.Body, func(x ast.Node) bool {
+					call, ok := x.(*ast.CallExpr)
+					if !ok {
+						return true
+					}
+					if sel, ok := ast.Unparen(call.Fun).(*ast.SelectorExpr); ok && sel.Sel.Name == "Get" && len(call.Args) == 0 {
+						if tv, ok := info.Types[sel.X]; ok && isNamed(tv.Type, "lazy", "Eval") {
+							if _, isCall := ast.Unparen(sel.X).(*ast.CallExpr); isCall && isSelf(sel.X) {
+								forced = call
+							}
+						}
+					}
+					if callee := calleeOf(info, call); callee != nil && funcIs(callee, "lazy", "Run") && len(call.Args) == 1 && isSelf(call.Args[0]) {
+						forced = call
+					}
+					return true
+				})
+				if forced != nil {
+					c.Add(rule, name+"/force", forced.Pos(), core.Violated, name+" forces its own recursive result (`"+exprString(forced.(*ast.CallExpr))+"`): every level starts a nested trampoline on the Go stack, so stack depth grows with the length of the input")
+				} else {
+					c.Add(rule, name+"/force", fd.Pos(), core.Discharged, "recursive result is returned to the trampoline, never forced")
+				}
 				if bad > 0 {
 					c.Add(rule, name, fd.Pos(), core.Violated, name+" calls itself outside a literal handed to lazy.TailCall/Call: the fold recurses on the Go stack (depth = length of the input)")
 				} else {
